@@ -407,7 +407,7 @@ func run(r *ev.Run) int {
 		r.FloorCount("near_miss_token_probes", int64(r.Pick(350, 9000)))
 		r.FloorCount("near_miss_certificates", int64(r.Pick(330, 4500)))
 		r.FloorCount("tls_observed_accepted", int64(r.Pick(150, 1000)))
-		r.FloorCount("multi_certificate_client_messages", int64(r.Pick(120, 1200)))
+		r.FloorCount("multi_certificate_client_messages", int64(r.Pick(90, 550)))
 		r.FloorDistinct("option_sets_inproc", 16)
 		r.FloorDistinct("option_sets_binary", int64(r.Pick(3, 12)))
 		r.FloorNontrivial(int64(r.Pick(750, 14000)))
